@@ -289,16 +289,21 @@ def call_arity_error(repo, cg, mod, call, localnames=()):
         # class: need __init__ through a fully resolved MRO
         ci = target
         mro = repo.mro(ci)
+        # walk the by-name MRO: the first class defining __init__ decides the signature; an unresolved (external) base
+        # met before that may define it instead -> undecided.  Builtin exception bases accept any arguments in __new__.
+        init = None
         for c in mro:
-            for b in c.bases:
-                if b is None or (b != "object" and repo.find_class(c.mod.name, b) is None):
-                    return None  # external / unresolved base may define __init__/__new__
             if "__new__" in c.methods:
+                return None
+            if "__init__" in c.methods:
+                init = c.methods["__init__"]
+                break
+            unresolved = [b for b in c.bases if b is None or (b != "object" and repo.find_class(c.mod.name, b) is None)]
+            if unresolved:
                 return None
         # metaclass keyword
         if any(k.arg == "metaclass" for c in mro for k in c.node.keywords):
             return None
-        init = repo.find_method(ci, "__init__")
         if init is None:
             fn = None
             nparams, required, kwok, varpos, names = 0, 0, False, False, []
@@ -370,4 +375,38 @@ def module_level_calls(m):
         rec(e)
 
     rec(m.tree)
+    return out
+
+
+def r_dupkey(repo, modnames, rule="R-DUPKEY"):
+    out = RuleOut(
+        rule,
+        "no dict display (table literal) repeats a key: the later row silently replaces the earlier one, so one row of the "
+        "table is lost (a decoded condition / record type / size then has no entry or the wrong one)",
+    )
+    n = 0
+    for mn in sorted(modnames):
+        m = repo.modules[mn]
+        for d in ast.walk(m.tree):
+            if not isinstance(d, ast.Dict) or len(d.keys) < 2:
+                continue
+            n += 1
+            seen = {}
+            for k, v in zip(d.keys, d.values):
+                if isinstance(k, ast.Constant):
+                    kk = (type(k.value).__name__, k.value)
+                elif isinstance(k, ast.Name):
+                    kk = ("name", k.id)
+                else:
+                    continue
+                if kk in seen:
+                    out.report(m.rel, "<module>" if True else "", "duplicate key %s" % norm(k), k.lineno, "dict literal at line %d repeats key %s (first value %s, now %s): the earlier row is lost" % (d.lineno, norm(k), norm(seen[kk])[:40], norm(v)[:40]))
+                seen[kk] = v
+            if n % 200 == 1:
+                out.inst("%s::dict@%d" % (m.rel, d.lineno), {"file": m.rel, "line": d.lineno, "rows": len(d.keys)})
+            else:
+                out.inst("%s::dict@%d" % (m.rel, d.lineno), None)
+    out.stats["dict_literals"] = n
+    if n < 100:
+        raise AnalysisError("%s: only %d dict literals scanned" % (rule, n))
     return out
